@@ -2,7 +2,7 @@
    Statements only; each is closed by [exact] of a lemma proved in TreeProof*.v.  Model: Tree.v / TreeNF.v.
    [re.subn(pattern, new, ·)] is ANY function [subn : str -> str * nat]: every pattern, every replacement. *)
 From Coq Require Import List ZArith Bool. Import ListNotations.
-Require Import WS WSnfproof Tree TreeNF TreeProof TreeProof2 TreeProof3 TreeProof4.
+Require Import WS WSnfproof Tree TreeNF TreeProof TreeProof2 TreeProof3 TreeProof4 TreeProof8.
 
 (* replace(pattern, new): every text node becomes re.subn of itself, the markup stays where it is *)
 Theorem C16_replace : forall subn evs,
@@ -25,6 +25,27 @@ Theorem C16_count_only : forall subn nfind evs, (forall s, nfind s = snd (subn s
   count_only nfind evs = replace_count subn evs.
 Proof. intros subn nfind evs H. unfold count_only, replace_count. f_equal. apply map_ext. exact H. Qed.
 Print Assumptions C16_count_only.
+
+(* replace(pattern, new, formatted=True), repaired code (fixes/F27): on a tree whose white-space elements are leaves
+   ([wsl]: what every parser and odfdo itself produce)
+   - the element reads exactly as after the plain replacement: text:s / tab / line-break re-encoding changes no character;
+   - every p / h / span one of whose OWN text nodes (text, tails of its children) was changed is, afterwards, in the
+     white-space normal form of C05 ([NFb], which C05_nf_is_what_consumers_need shows to be what an ODF consumer needs) —
+     "as in a freshly created paragraph" *)
+Theorem C16_formatted_reads : forall subn n, wsl n = true ->
+  readable_ev (content (fst (repl subn true n))) = readable_ev (replace_ev subn (content n)).
+Proof. exact repl_fmt_reads. Qed.
+Print Assumptions C16_formatted_reads.
+Theorem C16_formatted_nf : forall subn n, wsl n = true ->
+  implied (own_flags subn n) (nf_flags (fst (repl subn true n))) = true.
+Proof. exact repl_fmt_nf. Qed.
+Print Assumptions C16_formatted_nf.
+Example C16_formatted_example :   (* <p><span>xx</span> abc def</p>, "abc" -> "A<tab>B  C": the F27 witness on the repaired algorithm *)
+  let subn := fun s : str => match s with [Sp; Ch 0; Ch 1; Ch 2; Sp; Ch 3] => ([Sp; Ch 7; Tb; Ch 8; Sp; Sp; Ch 9; Sp; Ch 3], 1) | _ => (s, 0) end in
+  let n := Node KP 1 false None [Node KSpan 2 false (Some [Ch 5; Ch 5]) [] (Some [Sp; Ch 0; Ch 1; Ch 2; Sp; Ch 3])] None in
+  wsl n = true /\ own_flags subn n = [true; false] /\ nf_flags (fst (repl subn true n)) = [true; true] /\
+  readable_ev (content (fst (repl subn true n))) = [Ch 5; Ch 5; Sp; Ch 7; Tb; Ch 8; Sp; Sp; Ch 9; Sp; Ch 3].
+Proof. repeat split; reflexivity. Qed.
 
 (* search*: what the code computes, and what the property asks *)
 Theorem C16_search_is_regex_on_text_recursive : forall find n,
